@@ -204,13 +204,17 @@ class SqliteDLQMixin:
         """
         conn = self._get_connection()
 
-        # Find messages that have exceeded max_attempts
+        # Find messages that have exceeded max_attempts: the row's own limit
+        # OR the queue's limit. poll_one() filters on the queue's limit, so a
+        # row whose own column is larger (transaction-pushed or replayed rows
+        # carry the column default) would otherwise be neither polled nor moved.
         result = conn.execute(
             f"""
             SELECT id, message_type, attempts
             FROM {self.table_name}
-            WHERE attempts >= max_attempts
+            WHERE attempts >= max_attempts OR attempts >= :queue_max_attempts
             """,
+            {"queue_max_attempts": getattr(self, "max_attempts", 2**62)},
         )
         rows = result.fetchall()
 
